@@ -324,6 +324,33 @@ def run(ctx, res):
     res.evaluations += 1
     if open(cart, 'rb').read() != data:
         res.fail('C11:cli-overwrite', 'luafmt --overwrite damaged its input cart although formatting failed', {'code': 'a=b=c'})
+    # the same without --overwrite: the destination is <cart>_fmt.p8; a failed command leaves an existing one untouched and creates none
+    for cmd, extra in (('luafmt', []), ('luamin', ['--keep-names-from-file', os.path.join(ctx.tmp, 'no_such_names.txt')])):
+        for existed in (True, False):
+            cart2 = os.path.join(ctx.tmp, 'cli2_%s.p8' % cmd)
+            open(cart2, 'wb').write(data)            # code `a=b=c`: the tree-driven formatter refuses it
+            dest = cart2[:-3] + '_fmt.p8'
+            if existed:
+                open(dest, 'wb').write(b'PREVIOUS OUTPUT \x00\xff')
+            elif os.path.exists(dest):
+                os.remove(dest)
+            before = snapshot(dest)
+            outcome = 'rc?'
+            with U.quiet(), contextlib.redirect_stdout(io.StringIO()), contextlib.redirect_stderr(io.StringIO()):
+                try:
+                    outcome = 'rc%s' % tool.main(['-q', cmd] + extra + [cart2])
+                except BaseException as e:
+                    outcome = 'raised ' + type(e).__name__
+            res.evaluations += 1
+            res.count('cli-failed-command')
+            res.nontrivial.add(('cli', cmd, existed))
+            if outcome == 'rc0':
+                continue        # the command did not fail here: nothing to check (success is C01/C09's subject)
+            if snapshot(dest) != before:
+                res.fail('C11:cli-%s:%s' % (cmd, 'exists' if existed else 'absent'),
+                         'p8tool %s failed (%s) but its destination %s was %s' % (cmd, outcome, os.path.basename(dest),
+                                                                                 'removed or changed' if existed else 'created'),
+                         {'command': cmd, 'dest_existed': existed, 'code': 'a=b=c'})
     # model trace shape (Lean `toFile`) is compared structurally above: [exists, (read label)], temp writes, seek, open, write
 
 
